@@ -312,6 +312,11 @@ def r5_dollar(run, w):
     except Exception:        # pylint: disable=broad-except
       continue
   need(fi, "the definition of %s" % name, ppf)
+  return anchored_dollar_patches(run, R5, fi)
+
+
+def anchored_dollar_patches(run, R5, fi):
+  """obligations for every `rec.` patch of `fi` bounded by a regex match (shared with C19-R8)"""
   # patches whose bounds come from a match object:  make_patch(text, m.start(..), m.end(..), 'rec.')
   sites = []
   for c in calls_in(fi.node):
